@@ -2308,3 +2308,44 @@ func globalIfaceConcrete(g *ssa.Global) types.Type {
 	}
 	return nil
 }
+
+// liftPair: two instructions, each given with the chain of call sites through which its body is entered from a
+// common anchor, as instructions of the deepest body both belong to (a helper is represented there by its call site).
+func liftPair(a ssa.Instruction, actx dctx, b ssa.Instruction, bctx dctx) (ssa.Instruction, ssa.Instruction) {
+	k := 0
+	for k < len(actx) && k < len(bctx) && actx[k] == bctx[k] {
+		k++
+	}
+	if len(actx) > k {
+		a = actx[k]
+	}
+	if len(bctx) > k {
+		b = bctx[k]
+	}
+	return a, b
+}
+
+// returnsResultOf: the function containing call hands result #idx of call back as its own result #idx on some
+// return (`return helper(x)` or `v, err := helper(x); ...; return v, nil`).
+func returnsResultOf(call *ssa.Call, idx int) bool {
+	f := call.Parent()
+	found := false
+	eachInstr(f, func(in ssa.Instruction) {
+		ret, ok := in.(*ssa.Return)
+		if !ok || isRecoverReturn(ret) {
+			return
+		}
+		vs := retVals(ret)
+		if idx >= len(vs) {
+			return
+		}
+		v := resolveVal(vs[idx])
+		if v == ssa.Value(call) {
+			found = true
+		}
+		if ex, isE := v.(*ssa.Extract); isE && ex.Tuple == ssa.Value(call) && ex.Index == idx {
+			found = true
+		}
+	})
+	return found
+}
